@@ -110,7 +110,10 @@ def convert_facebook_url_to_mobile(url):
 
     has_protocol = safe_url == url
 
-    scheme, netloc, path, query, fragment = urlsplit(safe_url)
+    try:
+        scheme, netloc, path, query, fragment = urlsplit(safe_url)
+    except ValueError:
+        netloc = ""
 
     if "facebook" not in netloc:
         raise TypeError(
@@ -311,7 +314,10 @@ def parse_facebook_url(url, allow_relative_urls=False):
         and not url.startswith("https://")
         and "facebook." not in url
     ):
-        url = urljoin(BASE_FACEBOOK_URL, url)
+        try:
+            url = urljoin(BASE_FACEBOOK_URL, url)
+        except ValueError:
+            return None
     else:
         if not is_facebook_url(url):
             return None
